@@ -49,4 +49,11 @@ theorem from_import_names_tie :
 /-- `compileImport` loads the validated path text itself as the module name -/
 theorem compile_import_name_tie : compileImportName = "node.Path().Value()" := by decide
 
+/-- the code object an importer hands out is the one its BY-NAME cache holds or the result of a
+    fresh `parseAndCompile` of that module's file — nothing else (the model's `LocalImporter`:
+    `Env.reuse = none`, hypothesis of `importer_distinct_paths_distinct_code`) -/
+theorem importer_code_sources_tie :
+    localImporterCodeSources = ["i.codeCache[name]", "parseAndCompile(ctx, source, fullPath, i.globalNames)"] ∧
+    fsImporterCodeSources = localImporterCodeSources := by decide
+
 end Risor.C14
